@@ -1969,6 +1969,17 @@ def check_C13(ctx):
         probe_lines.append(f"parse {ent['mode']} 1 1 {f.hex()}")
         if kw_constructible(ent) and not has_var_group(ent["defn"]) and lay.attrs[1]:
             probe_lines.append(f"construct {ent['cls'].hex()} {ent['id'].hex()} {ent['mode']} 1 A " + " ".join(kw_tokens(lay.attrs[1], lay.names)))
+    # the same class/id seen in both of its input modes under SETPOLL (a per-type memo of the resolved mode would make the
+    # second answer depend on the first), and the same frame under every explicit mode
+    by_id = {}
+    for ent, lay, f in frames:
+        if ent["mode"] in (SET, POLL):
+            by_id.setdefault((ent["cls"], ent["id"]), {})[ent["mode"]] = f
+    both = [v for v in by_id.values() if len(v) == 2][:ctx.n(25, 200)]
+    for v in both:
+        for mode_ in (POLL, SET):
+            probe_lines.append(f"parse 3 1 1 {v[mode_].hex()}")
+            probe_lines.append(f"parse 3 1 0 {v[mode_].hex()}")
     probe_lines += [f"construct 06 31 2 1 A tpIdx=i1", "construct 06 31 2 1 P 01", "construct 06 31 2 1 E",
                     "cfgset 1 0 CFG_NMEA_PROTVER=i41", "cfgpoll 0 0 CFG_UART1_BAUDRATE", "cfgdel 2 0 #545259521"]
     d0 = deep_digest()
@@ -1986,9 +1997,25 @@ def check_C13(ctx):
         res.finding("class=writes-to-stdout-or-stderr", f"parsing/constructing wrote {cap.data[:80]!r}", dict(op=(culprit or "")[:400]))
     model = [canon.canon_readp_model(canon.canon_model_line(x)) for x in run_model(probe_lines)]
     res.count(len(probe_lines))
+    suspects = []
     for l, a, b in zip(probe_lines, first, model):
         if a != b and a.count("=") <= corr.MAX_ATTRS:
             res.diffs.append(dict(op=l, py=a, model=b))
+            suspects.append((l, a))
+    # an answer that differs from the history-free model answer may be a memo / shared state at work: ask a fresh
+    # interpreter (nothing processed before) for the same input — if it answers differently, that is the failing history
+    import subprocess
+    for l, a in suspects[:8]:
+        try:
+            pr = subprocess.run([sys.executable, "-c", "import sys; from vh import canon; print(canon.handle(sys.argv[1]))", l],
+                                capture_output=True, text=True, timeout=120, env=dict(os.environ))
+            fresh = pr.stdout.strip().splitlines()[-1] if pr.stdout.strip() else None
+        except Exception:  # noqa
+            fresh = None
+        res.count()
+        if fresh is not None and pr.returncode == 0 and fresh != a:
+            res.finding("class=history-dependent", "the result for an input differs from what a fresh interpreter gives for it: it depends on what was processed before",
+                        dict(op=l[:400], fresh=fresh[:200], after_history=a[:200], history=[x[:200] for x in probe_lines[:probe_lines.index(l)][-6:]]))
     # unrelated work in between: other messages, errors, streams, config helpers
     with FdCapture() as cap2:
         corr.run_python([f"parse {rng.choice([0, 1, 2, 3])} {rng.choice([0, 1])} 1 {canon.hx(garbage_stream(ctx)[:60])}" for _ in range(300)])
